@@ -59,12 +59,17 @@ class ByNameEnumMappingGenerator(BaseEnumMappingGenerator):
 
     def _generate_mapping(self, cases: Iterable[EnumT]) -> Mapping[EnumT, str]:
         result = {}
+        # members of enum with mixin (e.g. ``str``) are equal to their values,
+        # so plain dict lookup can confuse member with the name of another member
+        member_map = {key: value for key, value in self._map.items() if isinstance(key, Enum)}
+        name_map = {key: value for key, value in self._map.items() if not isinstance(key, Enum)}
 
         for case in cases:
-            if case in self._map:
-                mapped = self._map[case]
-            elif case.name in self._map:
-                mapped = self._map[case.name]
+            member_key = next((key for key in member_map if key is case), None)
+            if member_key is not None:
+                mapped = member_map[member_key]
+            elif case.name in name_map:
+                mapped = name_map[case.name]
             elif self._name_style:
                 mapped = convert_snake_style(case.name, self._name_style)
             else:
